@@ -69,11 +69,11 @@ CHECKS = {
    "Tuples are sampled (seeded); per tuple exhaustive. Release flavour only. An accepted flip would be a SHAKE256 collision.",
    "deterministic simulation: exhaustive single-bit channel-fault enumeration per seeded tuple", "DESIGN.md 4.2"),
  "C10": chk("C10", "fault_enumeration",
-   "Storage-fault simulation on the serialised private key: every single-bit flip, stuck-at 0x00/0xFF at every byte, lost writes, torn writes against another honest key at every byte boundary, seeded multi-bit rot; oracle is a 15-line reference model of the on-disk layout, both directions (Err iff some s1/s2 field > 2*eta); in the checked flavour every accepted key is re-serialised under the library's self-checks. Partition (field x out-of-range value) coverage is measured.",
+   "Storage-fault simulation on the serialised private key: every single-bit flip, stuck-at 0x00/0xFF at every byte, lost writes, torn writes against another honest key at every byte boundary, seeded multi-bit rot; oracle is a 15-line reference model of the on-disk layout, both directions (Err iff some s1/s2 field > 2*eta); memory-test pattern fills (0xAA, 0x55, address-in-data, ramp) of the whole key and of every 64-byte block; in the checked flavour every accepted key is re-serialised under the library's self-checks; one further build with a single parameter set enabled. Partition (field x out-of-range value) coverage is measured.",
    "Decides C10 on byte strings reachable by canonical faults from honest keys, not on all of B^SK_LEN; trusts the layout model (validated: it accepts every honest key).",
    "deterministic simulation: storage fault enumeration vs reference layout model", "DESIGN.md 4.3"),
  "C14": chk("C14", "exploration",
-   "The one nondeterminism source the statement quantifies over - the values returned by the RNG device - is owned by the simulator; the oracle is the simulator's own determinism check turned on the library: the recorded event history (every control-flow edge and every load/store address, from compiler-inserted probes) of dudect_keygen_sign_with_rng must be identical for every seeded RNG output, and likewise for each secret-handling kernel driven alone through the verif-hooks wrappers on seeded in-range vectors. Exact trace comparison, not timing; optimisation levels 3 (quick) and 3/s/1 (thorough).",
+   "The one nondeterminism source the statement quantifies over - the values returned by the RNG device - is owned by the simulator; the oracle is the simulator's own determinism check turned on the library: the recorded event history (every control-flow edge and every load/store address, from compiler-inserted probes) of dudect_keygen_sign_with_rng must be identical for every seeded RNG output, and likewise for each secret-handling kernel driven alone through the verif-hooks wrappers on seeded in-range vectors. Exact trace comparison, not timing; optimisation levels 3 (quick) and 3/s/1 (thorough); additionally traced builds with a single parameter set (code cfg'd on the feature set).",
    "Observation level is LLVM IR after optimisation (SanitizerCoverage), so back-end if-conversion choices and microarchitecture are not observed; inputs are sampled (seeded), not enumerated. Needs the add-only feature verif-hooks for the kernel-alone windows.",
    "deterministic simulation: RNG-value exploration with event-history (edge + address trace) equality oracle", "DESIGN.md 4.5"),
  "C17": chk("C17", "exploration",
@@ -81,8 +81,8 @@ CHECKS = {
    "Weakest tie to the technique family (no fault or schedule in the statement; said so in DESIGN.md 4.6). Behavioural equality is judged on the seeded workload, warnings on the pinned stable toolchain.",
    "deterministic simulation replayed across all build configurations (history-digest diff)", "DESIGN.md 4.6"),
  "C16": chk("C16", "exploration",
-   "Lifecycle simulation: the simulator owns creation path, use history (including uses during which the RNG device fails), container and destruction instant of every key object in an inspectable arena, and reads back every byte after drop_in_place. Exhaustive (set x type x provenance x container) matrix with seeded use histories; the read-back discipline is validated under Miri in the thorough tier.",
-   "Compiler-made copies on moves are outside the statement and not examined. Relies on volatile reads through the allocation's own raw pointer after drop_in_place (validated under Miri).",
+   "Lifecycle simulation: the simulator owns creation path, use history (including uses during which the RNG device fails), container and destruction instant of every key object in an inspectable arena, and reads back every byte after drop_in_place. Exhaustive (set x type x provenance x container) matrix with seeded use histories, provenances including keys loaded from a faulted store (zero prefix, lost write, zero block, bit rot); two feature builds; a third harness (dropspy) built with fat LTO, panic=abort, opt-level 3 drops boxed keys as an application would (one drop site per key type) and reads the freed memory back through /proc/self/mem, so that a wipe the optimiser is allowed to delete is seen to be missing; the read-back discipline of the arena is validated under Miri in the thorough tier.",
+   "Compiler-made copies on moves are outside the statement and not examined. Relies on volatile reads through the allocation's own raw pointer after drop_in_place (validated under Miri); dropspy relies on glibc malloc leaving a freed 4-32 KiB block in place apart from its first 64 bytes, and on /proc/self/mem.",
    "deterministic simulation: object-destruction events in an inspectable arena", "DESIGN.md 4.4"),
 }
 
